@@ -8,6 +8,7 @@ import gen as G
 import verde as vd
 
 ID = "C07"
+TRANSLATED = "coords"      # Gen/Coords.lean is regenerated from /repo by py2lean.py and bridged to the model in Props/C07.lean
 FILES = ["verde/coordinates.py"]
 RULE = ("cases = corpus (ties, degenerate, spacing>extent) + seeded stream over line_coordinates / grid_coordinates / "
         "spacing_to_size / shape_to_spacing / profile_coordinates on dyadic, decimal and large-offset inputs plus malformed "
